@@ -1,14 +1,149 @@
 /-
 C02 — SkipList / SkipListWithCmp behave as an ordered map.
 ONLY property theorems and non-vacuity examples; helper lemmas are in `Golib/Proof/C02*.lean`.
+
+Model: `Golib/Model/C02Skip.lean` ("levels as lists", written as the code walks, of the
+REPAIRED code — F1).  Specification: `OMap.step` on a key-ascending association list
+(`Golib/Proof/C02Refine.lean`, `OMap.set/erase/get/from/between` in `C02Inv.lean`).
+`Cfg.lazy = true` is `SkipList` (built-in order as `cmp`), `false` is `SkipListWithCmp`;
+`TotalCmp cmp` are the total-order laws of the comparator.  `Good cfg s` = reachable:
+`Inv cfg.cmp s` or the untouched zero value of `SkipList`.  Tower heights enter through the
+word `r` of `Op.set/setX/setNx` (what the private random source returns); every theorem
+quantifies over all of them.
 -/
-import Golib.Model.C02Skip
+import Golib.Proof.C02Refine
 
 namespace Golib.C02
 
-/-- The forced-height mapping used by the harness: the word `1 <<< (32-L)` makes
-`randomLevel` return `L` (and `0` gives 1). -/
-theorem c02_randomLevel_forced : ∀ L, L < 32 → randomLevel (1 <<< (31 - L)) = L + 1 := by
+variable {K V : Type} [DecidableEq K]
+
+/-- `randomLevel` (bit-level, as coded) always yields a height in `[1, 32]`. -/
+theorem c02_randomLevel_range (r : Nat) : 1 ≤ randomLevel r ∧ randomLevel r ≤ 32 :=
+  randomLevel_range r
+
+/-- The mapping the harness uses to force a tower height: the source word `1 <<< (32-L)`
+gives height `L` (`1 ≤ L ≤ 32`), and `0` gives height 1. -/
+theorem c02_randomLevel_forced : (∀ L, L < 32 → randomLevel (1 <<< (31 - L)) = L + 1) ∧ randomLevel 0 = 1 := by
   decide
+
+/-- What the representation invariant says: every level strictly sorted, level `i+1` a
+sub-list of level `i`, nothing above `level`, the top level non-empty (or `level = 1`),
+`len` = length of level 0, exactly the level-0 nodes carry a value, `1 ≤ level ≤ 32`. -/
+theorem c02_inv_content {cmp : K → K → Int} {s : SL K V} (h : Inv cmp s) :
+    s.lv.length = 32 ∧
+    (∀ (i : Nat) (l : List K), s.lv[i]? = some l → l.Pairwise (fun a b => cmp a b < 0)) ∧
+    (∀ (i : Nat) (l l' : List K), s.lv[i]? = some l → s.lv[i + 1]? = some l' → l'.Sublist l) ∧
+    (∀ (i : Nat), s.level ≤ i → i < 32 → s.lv[i]? = some []) ∧
+    (s.level = 1 ∨ ∃ l, s.lv[s.level - 1]? = some l ∧ l ≠ []) ∧
+    (∃ l0, s.lv[0]? = some l0 ∧ s.len = (l0.length : Int) ∧ ∀ k, k ∈ s.vals.map Prod.fst ↔ k ∈ l0) ∧
+    1 ≤ s.level ∧ s.level ≤ 32 := by
+  obtain ⟨rest, hr⟩ := h.lv_cons
+  refine ⟨h.len32, ?_, ?_, h.above, h.top, ⟨chain0 s, by rw [hr]; rfl, h.len, h.vals⟩, h.lvl⟩
+  · intro i l hl
+    exact h.tower.1 l (List.mem_of_getElem? hl)
+  · intro i l l' hl hl'
+    obtain ⟨hi, rfl⟩ := List.getElem?_eq_some_iff.mp hl
+    obtain ⟨hi', rfl⟩ := List.getElem?_eq_some_iff.mp hl'
+    exact (List.pairwise_iff_getElem.mp h.tower.2) i (i + 1) hi hi' (by omega)
+
+/-- The invariant holds after `Init()` and is preserved by every method, for every tower
+height; no method panics in a reachable state. -/
+theorem c02_inv (cfg : Cfg K V) (hc : TotalCmp cfg.cmp) (hf : cfg.fixed = true) :
+    Inv cfg.cmp (SL.init : SL K V) ∧
+    ∀ (s : SL K V) (op : Op K V), Good cfg s → ∃ s' out, s.step cfg op = some (s', out) ∧ Good cfg s' := by
+  refine ⟨Inv.init cfg.cmp, ?_⟩
+  intro s op hg
+  obtain ⟨s', out, h1, h2, _, _⟩ := step_sim cfg hc hf hg op
+  exact ⟨s', out, h1, h2⟩
+
+/-- The abstraction of a reachable state is a sorted map with unique keys. -/
+theorem c02_abstraction_sorted {cmp : K → K → Int} {s : SL K V} (h : Inv cmp s) :
+    (toMap s).Pairwise (fun (a b : K × V) => cmp a.1 b.1 < 0) :=
+  h.toMap_sorted
+
+/-- Refinement: for every operation sequence (Set, SetNx, SetX, Remove, Clear, Get, GetNode,
+node.SetValue, Len, Head, Keys, Values, Range, All, RangeWithStart, RangeWithRange with a
+callback that stops after `n` calls), from every reachable state and for every choice of
+tower heights, no call panics and the outputs are exactly those of the sorted-map
+specification run on the abstraction. -/
+theorem c02_refines (cfg : Cfg K V) (hc : TotalCmp cfg.cmp) (hf : cfg.fixed = true)
+    (s : SL K V) (hg : Good cfg s) (ops : List (Op K V)) :
+    ∃ s' outs, SL.run cfg s ops = some (s', outs) ∧ Good cfg s' ∧
+      OMap.run cfg (toMap s) ops = (toMap s', outs) :=
+  run_sim cfg hc hf ops hg
+
+/-- Starting points: the zero value of `SkipList` and every `New…`/`Init()` state are
+reachable and represent the empty map. -/
+theorem c02_initial (cfg : Cfg K V) :
+    Good cfg (SL.init : SL K V) ∧ toMap (SL.init : SL K V) = [] ∧
+    (cfg.lazy = true → Good cfg (SL.zero : SL K V)) ∧ toMap (SL.zero : SL K V) = [] :=
+  ⟨Or.inl (Inv.init cfg.cmp), toMap_init, fun hl => Or.inr ⟨hl, rfl⟩, toMap_zero⟩
+
+/-- The outputs do not depend on the tower heights: two runs of the same calls that differ
+only in the words drawn from the random source produce the same outputs. -/
+theorem c02_height_independent (cfg : Cfg K V) (hc : TotalCmp cfg.cmp) (hf : cfg.fixed = true)
+    (s : SL K V) (hg : Good cfg s) (ops ops' : List (Op K V))
+    (hsame : ops.map Op.eraseR = ops'.map Op.eraseR) :
+    ∃ s1 s2 outs, SL.run cfg s ops = some (s1, outs) ∧ SL.run cfg s ops' = some (s2, outs) ∧
+      toMap s1 = toMap s2 := by
+  obtain ⟨s1, o1, h1, _, h1'⟩ := run_sim cfg hc hf ops hg
+  obtain ⟨s2, o2, h2, _, h2'⟩ := run_sim cfg hc hf ops' hg
+  have : OMap.run cfg (toMap s) ops = OMap.run cfg (toMap s) ops' := by
+    rw [← omap_run_eraseR cfg ops, ← omap_run_eraseR cfg ops', hsame]
+  rw [h1', h2'] at this
+  obtain ⟨e1, e2⟩ := Prod.mk.inj this
+  subst e2
+  exact ⟨s1, s2, o1, h1, h2, e1⟩
+
+/-- A zero-value `SkipList` behaves as an empty map for every method, before and after
+`Clear()`: the call does not panic and answers what the empty map answers. -/
+theorem c02_zero_value (cfg : Cfg K V) (hc : TotalCmp cfg.cmp) (hf : cfg.fixed = true)
+    (hl : cfg.lazy = true) (op : Op K V) :
+    (∃ s' out, (SL.zero : SL K V).step cfg op = some (s', out) ∧ Good cfg s' ∧
+      OMap.step cfg [] op = (toMap s', out)) ∧
+    (∃ s' out, ((SL.zero : SL K V).clear cfg).step cfg op = some (s', out) ∧ Good cfg s' ∧
+      OMap.step cfg [] op = (toMap s', out)) := by
+  have hz : Good cfg (SL.zero : SL K V) := Or.inr ⟨hl, rfl⟩
+  have hcl : (SL.zero : SL K V).clear cfg = SL.zero := by simp [SL.clear, hf, hl, SL.zero]
+  rw [hcl]
+  obtain ⟨s', out, h1, h2, h3, _⟩ := step_sim cfg hc hf hz op
+  rw [toMap_zero] at h3
+  exact ⟨⟨s', out, h1, h2, h3⟩, ⟨s', out, h1, h2, h3⟩⟩
+
+/-- `1 ≤ level ≤ 32` in every initialised state, and a call raises the top level by at
+most one (the first insert into a zero value initialises it to 1 first). -/
+theorem c02_level_bounds (cfg : Cfg K V) (hc : TotalCmp cfg.cmp) (hf : cfg.fixed = true)
+    (s : SL K V) (hg : Good cfg s) (op : Op K V) :
+    (Inv cfg.cmp s → 1 ≤ s.level ∧ s.level ≤ 32) ∧
+    ∃ s' out, s.step cfg op = some (s', out) ∧ s'.level ≤ max s.level 1 + 1 ∧ s'.level ≤ 32 := by
+  refine ⟨fun h => h.lvl, ?_⟩
+  obtain ⟨s', out, h1, h2, _, h4⟩ := step_sim cfg hc hf hg op
+  refine ⟨s', out, h1, h4, ?_⟩
+  rcases h2 with h | ⟨_, rfl⟩
+  · exact h.lvl.2
+  · simp [SL.zero]
+
+/-! ### non-vacuity -/
+
+/-- The built-in order on `Int` as a comparator. -/
+def cmpIntEx (a b : Int) : Int := if a < b then -1 else if a = b then 0 else 1
+
+theorem cmpIntEx_total : TotalCmp cmpIntEx := by
+  refine ⟨?_, ?_, ?_⟩ <;> intros <;> simp only [cmpIntEx] at * <;> (repeat' split) <;> omega
+
+def cfgEx : Cfg Int Int := { cmp := cmpIntEx, lazy := true, zeroK := 0, zeroV := 0 }
+
+/-- A run from the zero value that grows to level 3 (words `1<<<29`, `1<<<30` force heights
+3 and 2, capped at `level+1`), removes the tallest tower (level shrinks) and enumerates. -/
+example :
+    (SL.run cfgEx SL.zero
+      [.set 5 50 (1 <<< 30), .set 3 30 (1 <<< 29), .set 8 80 (1 <<< 29), .setNx 3 31 0, .remove 8,
+       .rangeWithRange 4 9 0]).map
+      (fun p => (p.1.lv.take 3, p.1.level, p.1.len, toMap p.1)) =
+    some ([[3, 5], [3, 5], [3]], 3, 2, [(3, 30), (5, 50)]) := by
+  decide
+
+example : Good cfgEx (SL.zero : SL Int Int) ∧ TotalCmp cfgEx.cmp ∧ cfgEx.fixed = true :=
+  ⟨Or.inr ⟨rfl, rfl⟩, cmpIntEx_total, rfl⟩
 
 end Golib.C02
